@@ -194,6 +194,7 @@ type Path struct {
 	frames         []pframe
 	retBind        map[ssa.Value]boundRet // call result (call or extract) -> value returned by the inlined callee
 	throughCalls   bool                   // Resolve follows retBind (off by default: rules match call results as such)
+	Truncated      bool                   // the path was cut at a loop bound, it does not end in a return / panic
 }
 
 type pframe struct {
@@ -554,6 +555,9 @@ type PathOpts struct {
 	Inline      func(root, callee *ssa.Function) bool
 	InlineDepth int  // default 3
 	NoInline    bool // walkAll's default policy (localHelper) is not wanted
+	// EmitTruncated also visits the prefixes that are cut off when a loop would be entered
+	// again (Path.Truncated): for rules that look at sites inside loops that never return.
+	EmitTruncated bool
 }
 
 // WalkPaths enumerates entry-to-exit paths of fn. visit returns false to stop.
@@ -597,7 +601,7 @@ func WalkPaths(fn *ssa.Function, opts PathOpts, visit func(p *Path) bool) (n int
 			stop = true
 			return
 		}
-		cp := &Path{Fn: fn, Blocks: append([]*ssa.BasicBlock(nil), p.Blocks...), facts: append([]map[atomKey]bool(nil), p.facts...)}
+		cp := &Path{Fn: fn, Blocks: append([]*ssa.BasicBlock(nil), p.Blocks...), facts: append([]map[atomKey]bool(nil), p.facts...), Truncated: p.Truncated}
 		if inl {
 			cp.segFrom = append([]int(nil), p.segFrom...)
 			cp.segTo = append([]int(nil), p.segTo...)
@@ -637,7 +641,13 @@ func WalkPaths(fn *ssa.Function, opts PathOpts, visit func(p *Path) bool) (n int
 		}
 		if from == 0 {
 			if visits[vkey{fr, b}] >= opts.MaxVisits {
-				return // bounded unrolling: this path is dropped (loop iterated more often)
+				// bounded unrolling: this path is dropped (loop iterated more often)
+				if opts.EmitTruncated && len(p.Blocks) > 0 {
+					p.Truncated = true
+					emit()
+					p.Truncated = false
+				}
+				return
 			}
 			// kill facts about values (re)defined in b
 			if len(facts) > 0 {
